@@ -33,8 +33,21 @@ def replay_cli(tsh):
     missing = sorted(u for u in used if u not in declared and not re.search(r'^func %s\b' % re.escape(u), go, re.M))
     return bool(missing), 'goml `%s`: the emitted Go uses %s without declaring %s' % (src.replace('\n', ' | '), sorted(used), missing) if missing else 'all helper types declared: ' + (go[:120].replace('\n', ' | ') or p.stderr[:200])
 
+def replay_cli_dyn(tsh):
+    """real CLI: a function with a parameter of the type; every `dyn__..` type name used in the Go text must be declared there"""
+    src = 'trait D { fn m(Self) -> int32; }\nfn mk() -> %s { mk() }\nfn use_it(x: %s) -> unit { () }\nfn main() -> unit { use_it(mk()) }\n' % (goml_ty(tsh), goml_ty(tsh))
+    d = tempfile.mkdtemp(prefix='vf-c02-')
+    try:
+        open(os.path.join(d, 'main.gom'), 'w').write(src)
+        p = subprocess.run([build.compiler_bin(), 'run', '--dump-go', os.path.join(d, 'main.gom')], capture_output=True, text=True, timeout=60)
+    finally: shutil.rmtree(d, ignore_errors=True)
+    go = p.stdout
+    used = set(re.findall(r'\b(dyn__\w+)\b', go)); declared = set(re.findall(r'^type (\w+) struct', go, re.M))
+    missing = sorted(u for u in used if u not in declared and not u.endswith('_vtable') or (u.endswith('_vtable') and u not in declared))
+    return bool(missing), 'goml `%s`: the emitted Go uses %s without declaring %s' % (src.replace('\n', ' | '), sorted(used), missing) if missing else 'all dyn types declared: ' + (go[:120].replace('\n', ' | ') or p.stderr[:200])
+
 POSITIONS = ['param', 'ret', 'let', 'if-then', 'if-else', 'match-arm', 'match-default', 'while-body', 'call-arg']
-def ob_helper_types(r, tier, seed, top, inner, depth, vec_len=(1, 2), positions=('param',)):
+def ob_helper_types(r, tier, seed, top, inner, depth, vec_len=(1, 2), positions=('param',), mode='helper'):
     W = e2.fresh_world(CRATES); tt = W.tt; TY = tt.find_adt(['tast', 'Ty'], 'compiler')
     AFN = tt.find_adt(['anf', 'Fn'], 'compiler'); AFILE = tt.find_adt(['anf', 'File'], 'compiler'); AE = tt.find_adt(['anf', 'AExpr'], 'compiler')
     CE = tt.find_adt(['anf', 'CExpr'], 'compiler'); IE = tt.find_adt(['anf', 'ImmExpr'], 'compiler'); PR = tt.find_adt(['common', 'Prim'], 'compiler')
@@ -45,7 +58,9 @@ def ob_helper_types(r, tier, seed, top, inner, depth, vec_len=(1, 2), positions=
         def make_adt(s, ex, adt, d, path, subst):
             if adt.name == 'Ty': s.allowed['Ty'] = top if d == depth else inner
             return Spec.make_adt(s, ex, adt, d, path, subst)
-    spec = S2(tt, allowed={'Ty': top}, leaves={'Ty': ['TInt32', 'TBool', 'TStruct']}, strings=('A',), vec_len=vec_len, int_choices=[2], depth=depth)
+    spec = S2(tt, allowed={'Ty': top}, leaves={'Ty': ['TInt32', 'TBool', 'TStruct'] if mode == 'helper' else ['TInt32', 'TDyn']}, strings=('A',) if mode == 'helper' else ('D',), vec_len=vec_len, int_choices=[2], depth=depth)
+    if mode == 'dyn':
+        r.assumptions = ['oracle: the trait of every `dyn Tr` type that occurs at any position of the type is in DynRequirements.traits returned by collect_dyn_requirements (the backend declares the Go struct dyn__Tr and its vtable type only for those)']
     def entry(ex):
         t = force(ex, spec.root(ex, 'tast::Ty', tag='t')); tsh = shape(t, TY)
         unit_ty = Agg(TY.key, TY.vindex('TUnit'), [])
@@ -73,6 +88,10 @@ def ob_helper_types(r, tier, seed, top, inner, depth, vec_len=(1, 2), positions=
             body = A('ACExpr', C('ECall', func=var('g', fty), args=PyVec([var('q', t)]), ty=unit_ty))
         fn = Agg(AFN.key, 0, [{'name': mkstr('use_it'), 'params': PyVec(params), 'ret_ty': ret, 'body': body}[f[0]] for f in AFN.variants[0].fields])
         h = {0: Agg(AFILE.key, 0, [PyVec([fn])])}
+        if mode == 'dyn':
+            res = ex.call('go::compile::collect_dyn_requirements', [Ref(h, 0)])
+            tr = res.fields[0]
+            return tsh, ([ms.pystr(x) for x in (tr.elems if isinstance(tr, PySet) else tr.keys)], [], []), pos
         res = ex.call('go::compile::collect_runtime_types', [Ref(h, 0)])
         sets = [[shape(x, TY) for x in (s_.elems if isinstance(s_, PySet) else s_.keys)] for s_ in res.fields]
         return tsh, sets, pos
@@ -82,6 +101,21 @@ def ob_helper_types(r, tier, seed, top, inner, depth, vec_len=(1, 2), positions=
         r.cases += 1
         if p.kind != 'ok': found.setdefault('panic', ('collect_runtime_types panics: %s' % p.value, None)); continue
         tsh, (tuples, arrays, refs), pos = p.value
+        if mode == 'dyn':
+            need = [s_ for s_ in subterms(tsh) if s_['k'] == 'TDyn']
+            if need: r.nontrivial += 1
+            missd = [s_ for s_ in need if s_['name'] not in tuples]
+            if missd:
+                def hidden_under(sh, target, under=None):
+                    if sh == target: return under
+                    for x in sh.get('a', []):
+                        r_ = hidden_under(x, target, sh['k'])
+                        if r_ is not None: return r_
+                    return None
+                key = 'dyn-type-not-collected:under-' + str(hidden_under(tsh, missd[0])) + ('' if pos == 'param' else ':at-' + pos)
+                found.setdefault(key, ('a value of type %s at position `%s` mentions dyn %s, which collect_dyn_requirements does not return (no Go declaration of dyn__%s is emitted)' % (goml_ty(tsh), pos, missd[0]['name'], missd[0]['name']), tsh if pos == 'param' else None))
+            elif len(r.samples) < 3 and need: r.samples.append({'type': goml_ty(tsh), 'traits': tuples})
+            continue
         need_t = [s_ for s_ in subterms(tsh) if s_['k'] == 'TTuple']; need_r = [s_ for s_ in subterms(tsh) if s_['k'] == 'TRef']
         if need_t or need_r: r.nontrivial += 1
         miss = [s_ for s_ in need_t if s_ not in tuples] + [s_ for s_ in need_r if s_ not in refs]
@@ -99,13 +133,15 @@ def ob_helper_types(r, tier, seed, top, inner, depth, vec_len=(1, 2), positions=
     for key, (what, w) in found.items():
         ok_, detail = True, 'sets returned by the real collect_runtime_types MIR'
         if w is not None:
-            try: ok_, detail = replay_cli(w)
+            try: ok_, detail = replay_cli(w) if mode == 'helper' else replay_cli_dyn(w)
             except Exception as e: ok_, detail = False, 'replay failed: %s' % str(e)[:200]
         r.findings.append(Finding(key, what, {'type': w}, ok_, detail))
 
 def obligations():
     comp = ['TTuple', 'TArray', 'TVec', 'TRef', 'TFunc']
-    return [Ob('O2.1-helper-types-positions', 'helper types are collected wherever a value of the type occurs: let / if / match arm / match default / while / call / return', ob_helper_types, ('quick', 'thorough'), 5, dict(top=['TTuple', 'TRef', 'TVec'], inner=['TTuple', 'TRef', 'TInt32'], depth=2, vec_len=(1, 1), positions=tuple(POSITIONS))),
+    return [Ob('O2.4-dyn-types-d2', 'every dyn Trait type inside a signature type is collected for declaration: depth 2', ob_helper_types, ('quick', 'thorough'), 5, dict(top=comp + ['TDyn'], inner=comp + ['TInt32', 'TDyn'], depth=2, vec_len=(1, 1), mode='dyn')),
+            Ob('O2.4-dyn-types-positions', 'dyn Trait types are collected wherever a value of the type occurs', ob_helper_types, ('quick', 'thorough'), 5, dict(top=['TTuple', 'TRef', 'TVec', 'TDyn'], inner=['TTuple', 'TVec', 'TDyn', 'TInt32'], depth=2, vec_len=(1, 1), positions=tuple(POSITIONS), mode='dyn')),
+            Ob('O2.1-helper-types-positions', 'helper types are collected wherever a value of the type occurs: let / if / match arm / match default / while / call / return', ob_helper_types, ('quick', 'thorough'), 5, dict(top=['TTuple', 'TRef', 'TVec'], inner=['TTuple', 'TRef', 'TInt32'], depth=2, vec_len=(1, 1), positions=tuple(POSITIONS))),
             Ob('O2.1-helper-types-d2', 'every tuple / reference type inside a signature type is collected for declaration: depth 2', ob_helper_types, ('quick', 'thorough'), 5, dict(top=comp, inner=comp + ['TInt32'], depth=2, vec_len=(1, 1))),
             Ob('O2.1-helper-types-d3', 'same, depth 3 (inner constructors tuple / Vec / Ref / array)', ob_helper_types, ('thorough',), 60, dict(top=comp, inner=['TTuple', 'TVec', 'TRef', 'TArray', 'TInt32'], depth=3, vec_len=(1, 1)))]
 
